@@ -115,6 +115,7 @@ rows the real `smawk` returned on every optimal-fit case. -/
 
 -- @audit TW.smawkInner_min
 -- @audit TW.onlineColumnMinima_min
+-- @audit TW.ocmStep_prefix_stable
 -- @audit TW.ownMinima_isMinimaRows
 -- @audit TW.wrapOptimalFit_eq_own
 
